@@ -23,6 +23,21 @@ def _stmt_slots(fn):
             pass
 
 
+def _exprs(fn):
+    """expression nodes that may be simplified: never annotations, never targets"""
+    skip = set()
+    for n in ast.walk(fn.args):
+        skip.add(id(n))
+    for n in ast.walk(fn):
+        if isinstance(n, ast.AnnAssign):
+            for m in ast.walk(n.annotation):
+                skip.add(id(m))
+        if isinstance(n, ast.match_case):
+            for m in ast.walk(n.pattern):
+                skip.add(id(m))
+    return [n for n in ast.walk(fn) if isinstance(n, ast.expr) and id(n) not in skip and not isinstance(getattr(n, "ctx", None), (ast.Store, ast.Del))]
+
+
 def _candidates(tree):
     """yield functions tree->bool that mutate a deep copy in place (return False when not applicable)"""
     fn = tree.body[-1]
@@ -50,7 +65,7 @@ def _candidates(tree):
                 yield ("case", k, i)
             k += 1
     # 3. expressions
-    exprs = [n for n in ast.walk(fn) if isinstance(n, ast.expr) and not isinstance(getattr(n, "ctx", None), (ast.Store, ast.Del))]
+    exprs = _exprs(fn)
     for ei, e in enumerate(exprs):
         kids = [c for c in ast.iter_child_nodes(e) if isinstance(c, ast.expr)]
         for ci in range(len(kids)):
@@ -106,7 +121,7 @@ def _apply(tree, cand):
             return None
         del n.cases[cand[2]]
     else:
-        exprs = [n for n in ast.walk(fn) if isinstance(n, ast.expr) and not isinstance(getattr(n, "ctx", None), (ast.Store, ast.Del))]
+        exprs = _exprs(fn)
         if cand[1] >= len(exprs):
             return None
         e = exprs[cand[1]]
